@@ -158,6 +158,13 @@ def run(ctx):
         r5.violation(key, "accessor returns %s" % rets, loc(g.sp))
     r5.floor(5, "scenarios + accessor")
 
+    # ---- R6 no restart at the same instant ------------------------------------------------------------------
+    r6 = ctx.rule("C12.R6", "reads at a fixed instant terminate: a carousel object whose transfers are exhausted is not eligible again while the time "
+                            "since its last transfer is <= the configured interval - in particular not at the very instant it finished when the interval is "
+                            "zero - and never before its start time (decision table of should_transfer_now, shared with C14.R1a)", "E3 decision table")
+    from . import c14
+    c14.never_early_table(ctx, r6)
+
     # ---- R4 loops on the sender read path ------------------------------------------------------
     r4 = ctx.rule("C12.R4", "every loop reachable from Sender::read has a recognised progress argument", "loop inventory")
     loops.check_loops(ctx, r4, [r"^sender::sender::Sender::read$"], table=SENDER_LOOP_TABLE)
